@@ -522,6 +522,69 @@ def indirect_stream(chk):
                 chk.fail('tiling', f'token {t.text!r} does not carry the characters of the span it covers', case)
                 break
     chk.stat('indirect-texts', n)
+    position_stream(chk)
+
+
+def position_stream(chk):
+    """Error positions are positions IN THE INPUT GIVEN: every entry point reports the same (line, column, line text)
+    for one text, and putting k blank lines (or k blanks on a one-line text) in front shifts the reported line
+    (column) by exactly k and changes nothing else."""
+    import penman
+    from harness import entrypoints
+    rng = chk.rng
+    n = 1200 if chk.tier == 'quick' else 12000
+
+    def outcome(fn, arg):
+        try:
+            r = common.timed(fn, arg, seconds=5)
+            return ('ok', repr(getattr(r, 'node', r)))
+        except penman.DecodeError as e:
+            return ('DecodeError', e.lineno, e.offset, e.text)
+        except Exception as e:       # noqa
+            return (type(e).__name__,)
+
+    def shifted(o, dl, dc):
+        if o[0] != 'DecodeError' or o[1] is None:
+            return o
+        if o[3] is None:             # end of input before any token: position (0, 0), no line
+            return o
+        return ('DecodeError', o[1] + dl, o[2] + dc, (' ' * dc + o[3]) if dc else o[3])
+
+    bad = 0
+    for i in range(n):
+        if rng.random() < .5:
+            s = gen.random_penman_text(rng, maxdepth=2, p_bad=0.6)
+            fns = [('parse', penman.parse)]
+        else:
+            k = rng.randint(1, 3)
+            s = ' ^ '.join('%s(%s, %s)' % (rng.choice(['instance', 'ARG0', 'op1', 'mod-of']), rng.choice('abc'), rng.choice(['b', 'x', '"s"', '1']))
+                           for _ in range(k))
+            j = rng.randint(0, len(s))
+            s = s[:j] + rng.choice([':', '/', '~', ')', '(', '"', ',', ' ^', '\n', 'x']) + s[j:]
+            fns = [('parse_triples', penman.parse_triples)]
+        s = s.lstrip(' \t\r\n\v\f')
+        if not s:
+            continue
+        case = {'stream': 'positions', 'input': s}
+        chk.count(('positions', s))
+        if fns[0][0] == 'parse':
+            d = entrypoints.disagreement(entrypoints.parse_variants(s))
+            if d:
+                chk.fail('lineno', 'entry points disagree on the outcome / error position: ' + d, case)
+        for name, fn in fns:
+            base = outcome(fn, s)
+            bad += base[0] == 'DecodeError'
+            k = rng.randint(1, 4)
+            nl = rng.choice(['\n', '\r\n', '\r'])
+            got = outcome(fn, nl * k + s)
+            if got != shifted(base, k, 0):
+                chk.fail('lineno', f'{name}: {k} blank lines in front of the text turn {str(base)[:120]} into {str(got)[:120]}', dict(case, blank_lines=k))
+            if '\n' not in s and '\r' not in s:
+                got = outcome(fn, ' ' * k + s)
+                if got != shifted(base, 0, k):
+                    chk.fail('lineno', f'{name}: {k} blanks in front of the text turn {str(base)[:120]} into {str(got)[:120]}', dict(case, blanks=k))
+    chk.stat('position-texts', n)
+    chk.stat('position-texts-with-error', bad)
 
 
 def replay(obj):
